@@ -68,6 +68,7 @@ var sweeps = []sweep{
 			{Op: "addbranch", From: "a", Ends: []string{"x", "end"}},
 			{Op: "compile"},
 			{Op: "addinput", To: "end", From: "b", In: "normal", Fields: []string{"B"}},
+			{Op: "setstatic", To: "a", Fields: []string{"B"}},
 		},
 		tail: []Call{{Op: "compile"}, {Op: "addnode", Key: "z", Kind: "lambda"}, {Op: "addinput", To: "z", From: "a", In: "normal"}, {Op: "compile"}},
 	},
@@ -687,6 +688,9 @@ func randWorkflow(r *lib.Rng, tier string) *Case {
 			avail = avail[1:]
 		}
 		g = append(g, input(k, avail)...)
+		if r.Chance(1, 6) {
+			g = append(g, Call{Op: "setstatic", To: k, Fields: []string{[]string{"B", "B", "A"}[r.Intn(3)]}})
+		}
 		groups = append(groups, g)
 	}
 	endAvail := []string{keys[n-1]}
@@ -731,7 +735,9 @@ func randWorkflow(r *lib.Rng, tier string) *Case {
 	randOpts(r, &comp, "workflow")
 	c.Calls = append(c.Calls, comp)
 	for k := r.Intn(4); k > 0; k-- {
-		switch r.Intn(6) {
+		switch r.Intn(7) {
+		case 6:
+			c.Calls = append(c.Calls, Call{Op: "setstatic", To: withEnd(keys)[r.Intn(n+1)], Fields: []string{[]string{"A", "B"}[r.Intn(2)]}})
 		case 0:
 			c.Calls = append(c.Calls, Call{Op: "addnode", Key: "z" + nodePool[r.Intn(3)], Kind: "lambda"})
 		case 1:
@@ -755,7 +761,8 @@ func randWorkflow(r *lib.Rng, tier string) *Case {
 
 var wfInj = []string{"input-unknown-from", "dup-input", "whole-twice", "field-twice", "branch-unknown-end", "branch-one",
 	"branch-unknown-start", "cycle", "no-end", "no-start", "addend-dup-target", "addend", "reserved", "dup-node", "need-state",
-	"trigger-opt", "maxsteps", "early-compile", "input-from-end", "input-to-start-key", "two-failing-nodes"}
+	"trigger-opt", "maxsteps", "early-compile", "input-from-end", "input-to-start-key", "two-failing-nodes",
+	"static-after-compile", "static-conflict", "static-on-end"}
 
 func injectWorkflow(r *lib.Rng, c *Case, keys []string) {
 	kind := wfInj[r.Intn(len(wfInj))]
@@ -879,6 +886,24 @@ func injectWorkflow(r *lib.Rng, c *Case, keys []string) {
 		k := Call{Op: "compile"}
 		randOpts(r, &k, "workflow")
 		c.Calls = insertAt(c.Calls, r.Range(0, firstCompile(c.Calls)), k)
+	case "static-after-compile":
+		comp := Call{Op: "compile"}
+		for _, k := range c.Calls {
+			if k.Op == "compile" {
+				comp = k
+				break
+			}
+		}
+		c.Calls = append(c.Calls, Call{Op: "setstatic", To: any(), Fields: []string{"B"}}, comp)
+		if r.Chance(1, 2) {
+			c.Calls = append(c.Calls, comp)
+		}
+	case "static-conflict":
+		t := any()
+		insInput(Call{Op: "addinput", To: t, From: "start", In: "normal", Fields: []string{"A"}})
+		insInput(Call{Op: "setstatic", To: t, Fields: []string{"A"}})
+	case "static-on-end":
+		insInput(Call{Op: "setstatic", To: "end", Fields: []string{[]string{"A", "B"}[r.Intn(2)]}})
 	case "two-failing-nodes":
 		// two nodes with deferred errors of different classes: which one Compile reports
 		// depends on Go's map order
